@@ -43,10 +43,11 @@ type Link struct {
 	Partial               int // bytes transferred by the failing call alongside the error
 	WriteSizes            []int
 	ReadSizes             []int
+	FaultRPos             int  // read position right after the bytes the failing Read call delivered (-1: no read fault happened)
 	OneShot               bool // the injected fault happens once and the transport works again afterwards (default: a failed transport stays failed)
 }
 
-func NewLink() *Link { return &Link{EOFAt: -1, FailRead: -1, FailWrite: -1} }
+func NewLink() *Link { return &Link{EOFAt: -1, FailRead: -1, FailWrite: -1, FaultRPos: -1} }
 
 func (l *Link) Write(p []byte) (int, error) {
 	i := l.WriteCalls
@@ -89,6 +90,7 @@ func (l *Link) Read(p []byte) (int, error) {
 		}
 		copy(p, l.Data[l.RPos:l.RPos+n])
 		l.RPos += n
+		l.FaultRPos = l.RPos
 		l.ReadSizes = append(l.ReadSizes, n)
 		return n, ErrInjected
 	}
